@@ -5,7 +5,7 @@ import random
 
 RES = {0: "file", 1: "pipe", 2: "tcp", 3: "udp", 4: "unix"}
 OPS = {1: "read", 2: "multi", 3: "arrive", 4: "poll", 5: "drive", 6: "dropslot", 7: "drophandle",
-       8: "check", 9: "closepeer", 10: "droprt", 11: "recvfrom", 12: "multifrom", 13: "wrap"}
+       8: "check", 9: "closepeer", 10: "droprt", 11: "recvfrom", 12: "multifrom", 13: "wrap", 14: "multimsg"}
 
 
 def next_pow2(n):
@@ -24,6 +24,8 @@ def gen_program(rng, adversarial=False):
     want_from = rng.random() < 0.12
     if want_from:
         buflen = rng.choice([192, 256])
+        if rng.random() < 0.3:
+            size = rng.choice([1, 2, 3])
     steps = []
     nslots = 0
     est_handles = 0
@@ -38,7 +40,8 @@ def gen_program(rng, adversarial=False):
             res = rng.choice([0, 1, 1, 2, 2, 3, 4, 4])
             ln = rng.choice([0, 0, 0, 1, 3, buflen, buflen + 5])
             if want_from and k < 0.5:
-                steps.append((rng.choice([11, 12, 12]), 3, ln if rng.random() < 0.5 else 0))
+                kind = rng.choice([11, 12, 12, 14, 14])
+                steps.append((kind, 3, rng.choice([0, 16, 24]) if kind == 14 else (ln if rng.random() < 0.5 else 0)))
                 res = 3
             elif (k < 0.55 if multi_heavy else k < 0.2) and res != 0:
                 # multishot read; pipes accept only len 0 on io_uring (EINVAL otherwise)
@@ -124,8 +127,8 @@ def generate(seed, n):
 
 def describe(case):
     ops = case[4::3]
-    kind = "multi" if (2 in ops or 12 in ops) else "single"
-    if (2 in ops or 12 in ops) and (1 in ops or 11 in ops):
+    kind = "multi" if (2 in ops or 12 in ops or 14 in ops) else "single"
+    if (2 in ops or 12 in ops or 14 in ops) and (1 in ops or 11 in ops):
         kind = "mixed"
     tail = "wrap" if 13 in ops else "droprt" if 10 in ops else "cancel" if 6 in ops else "plain"
     return ("uring" if case[0] == 0 else "poll") + "/" + kind + "/" + tail
